@@ -4,6 +4,7 @@
   (Kernel enumeration over all 65 536 patterns in Proofs/C11_Bf_<kk>.lean.)
 -/
 import BitstringModel.Proofs.C11_NumAll
+import BitstringModel.Proofs.C11_BfReenc
 
 namespace BM.C11
 open BM
@@ -33,6 +34,21 @@ theorem half_unpack_exact (h : Nat) (hh : h < 65536) : f64Val (unpackIEEE 5 10 h
 theorem halfClass_is_ieee (h : Nat) (hh : h < 65536) : halfVal h = (halfClass h).toFVal :=
   (bfChk_spec (bfChk_all h hh)).2.1
 
+/-- "decoding then re-encoding any non-NaN code returns that code", bfloat, all 65 536 codes and without a further
+    enumeration: the decoded float has exactly the value of the zero-padded float32 pattern (`bfloat_decode_ok`),
+    `struct.pack('>f')` of a float32-representable value reproduces that very pattern (`roundBits 8 23` is exact on
+    representable values, Proofs/C11_BfReenc.lean), and dropping a zero low half is the identity. -/
+theorem bfloat_reencode_fixpoint (mode : Mode) (c : Nat) (hc : c < 65536) (hnn : ¬ bfCodeIsNaN c) :
+    (decode .bfloat c >>= encode .bfloat mode) = .ok c := by
+  simp only [decode, encode, bind, Except.bind, bfloat_reencode_be c hc hnn]
+
+/-- The little-endian variant; the NaN test reads the byte-swapped code. -/
+theorem bfloatle_reencode_fixpoint (mode : Mode) (c : Nat) (hc : c < 65536) (hnn : ¬ bfCodeIsNaN (bswap16 c)) :
+    (decode .bfloatle c >>= encode .bfloatle mode) = .ok c := by
+  simp only [decode, encode, bind, Except.bind, bfloat_reencode_le c hc hnn]
+
+example : ¬ bfCodeIsNaN 0x7f80 ∧ bfCodeIsNaN 0x7fc0 ∧ ¬ bfCodeIsNaN 0x0001 := by
+  unfold bfCodeIsNaN; decide
 example : (decode .bfloat 0x3fc0).map f64Val = .ok (.fin false 3 (-1)) := by decide +kernel   -- 0x3fc0 = 1.5
 example : halfVal 0x3c00 = .fin false 1 0 ∧ halfClass 0x3c00 = .fin false (2 ^ 24) := by decide +kernel
 
